@@ -149,7 +149,6 @@ func describeGs(gs []gInfo) string {
 	return sb.String()
 }
 
-
 // waitQuiescentOrSpinning is waitQuiescent for the end of an attack: when no quiescent state is
 // reached it looks at what keeps running. A goroutine of the attack that is running or runnable
 // at the end of two successive windows of polls (thousands of scheduling rounds of this very
